@@ -1,6 +1,7 @@
 import QuiverModel.Core.Packaging.Renaming
 import QuiverModel.Core.Packaging.Sem
 import QuiverModel.Lemmas.Packaging.Exec
+import QuiverModel.Lemmas.Packaging.ValueInstrs
 /-
 C10 — packaging steps preserve behaviour (property theorems).
 
@@ -258,5 +259,156 @@ theorem strictB_sound {ρ : Ren} {P P' : Prog} {e e' : Nat} (h : validateB ρ P 
 /-- Non-vacuity of the execution theorem: `exP` run from its entry reaches a final state, and the
     shaken `exP'` reaches the related one. -/
 example : ∃ r, run exP (fun _ _ => .panic) 20 (St.start 1 Val.nil) = some r := ⟨_, rfl⟩
+
+end C10
+
+/-! ## Import = evaluate in place: the value → instructions round trip -/
+
+namespace C10
+open QM QM.Packaging
+
+/-- **`valueToInstrs_roundtrip`** (model of `value_to_instructions_from_cache`, used for `%m` and
+    `%m.f`): if emission succeeds for a well-formed value `v` — every tuple / function / builtin id
+    resolves in `P` with the right arity, which holds for any value the VM built from `P` — then
+    (1) the program only grew (`P.Le P1`), and (2) wherever the emitted sequence is placed (any
+    function, any offset, any surrounding stack / locals / frames, any later extension `Q` of the
+    program, any builtin semantics) running it leaves **exactly `v`** on top of the untouched stack,
+    locals and frames unchanged, `pc` just past the sequence. So using an imported value is the same
+    as having evaluated the module body in place. Closures keep their captures (`Function(f)` pops
+    the re-emitted capture values). -/
+theorem valueToInstrs_roundtrip {P P1 : Prog} {v : Val} {is : List Instr}
+    (h : v2iA P v = some (P1, is)) (hw : WfVal P v) :
+    P.Le P1 ∧
+    ∀ (Q : Prog), P1.Le Q → ∀ (B : BuiltinSem) (S L : List Val) (fn base caps pc : Nat) (rest : List Frame)
+      (pers : Bool), CodeAt Q fn pc is →
+      Steps Q B ⟨S, L, ⟨fn, base, caps, pc⟩ :: rest, pers⟩
+                ⟨v :: S, L, ⟨fn, base, caps, pc + is.length⟩ :: rest, pers⟩ := by
+  obtain ⟨hle, hreb⟩ := v2iA_rebuilds v P P1 is h hw
+  exact ⟨hle, fun Q hQ B S L fn base caps pc rest pers hc => by
+    simpa using hreb Q hQ B S L fn base caps pc rest pers hc⟩
+
+/-- Emission fails only where the Rust reports an error: it succeeds on every well-formed value. -/
+theorem valueToInstrs_total_on_wf : ∀ (v : Val) (P : Prog), WfVal P v → (v2iA P v).isSome = true := by
+  intro v P hw
+  suffices h : (∀ (v : Val) (P : Prog), WfVal P v → (v2iA P v).isSome = true) ∧
+      (∀ (vs : List Val) (P : Prog), WfVals P vs → (v2iAList P vs).isSome = true) from h.1 v P hw
+  clear hw v P
+  have key : ∀ n, (∀ (v : Val) (P : Prog), sizeOf v ≤ n → WfVal P v → (v2iA P v).isSome = true) ∧
+      (∀ (vs : List Val) (P : Prog), sizeOf vs ≤ n → WfVals P vs → (v2iAList P vs).isSome = true) := by
+    intro n
+    induction n with
+    | zero =>
+      constructor
+      · intro v P hsz _; cases v <;> simp at hsz
+      · intro vs P hsz _
+        cases vs with
+        | nil => simp [v2iAList]
+        | cons v vs => simp at hsz
+    | succ n ih =>
+      constructor
+      · intro v P hsz hw
+        cases v with
+        | int z => simp [v2iA]
+        | bin bs => simp [v2iA]
+        | ref r => exact hw.elim
+        | proc a b => exact hw.elim
+        | res a b => exact hw.elim
+        | builtin b =>
+          have hb : b < P.builtins.size := hw
+          simp [v2iA, hb]
+        | tuple t fs =>
+          obtain ⟨_, hfs⟩ := hw
+          have := ih.2 fs P (by simp at hsz; omega) hfs
+          simp only [v2iA]
+          cases hl : v2iAList P fs with
+          | none => rw [hl] at this; cases this
+          | some r => simp
+        | fn f cs =>
+          obtain ⟨⟨F, hF, _⟩, hcs⟩ := hw
+          have := ih.2 cs P (by simp at hsz; omega) hcs
+          simp only [v2iA, hF]
+          cases hl : v2iAList P cs with
+          | none => rw [hl] at this; cases this
+          | some r => simp
+      · intro vs P hsz hw
+        cases vs with
+        | nil => simp [v2iAList]
+        | cons v vs =>
+          have h1 := ih.1 v P (by simp at hsz; omega) hw.1
+          simp only [v2iAList]
+          cases hv : v2iA P v with
+          | none => rw [hv] at h1; cases h1
+          | some r =>
+            obtain ⟨P1, i1⟩ := r
+            have hle := (v2iA_rebuilds v P P1 i1 hv hw.1).1
+            have h2 := ih.2 vs P1 (by simp at hsz; omega) (WfVals.mono hle vs hw.2)
+            simp only
+            cases hvs : v2iAList P1 vs with
+            | none => rw [hvs] at h2; cases h2
+            | some r2 => simp
+  exact ⟨fun v P hw => (key (sizeOf v)).1 v P (Nat.le_refl _) hw,
+         fun vs P hw => (key (sizeOf vs)).2 vs P (Nat.le_refl _) hw⟩
+
+/-- Full statement for capture injection (`inject_function_captures`, the `quiv run` entry
+    extraction): the injected capture-free function `g`, called with `a`, behaves as the closure
+    `fn f caps` called with `a` — same final result, for every argument and every execution.
+    Proved below is the part that carries the content (`injectCaptures_prelude_partial`); the
+    remaining part is a simulation between a function body at offset 0 and the same body at offset
+    `prelude.length` (relative jumps; `TailCall(true)` re-runs the prelude), not done. -/
+def InjectCapturesEquivStatement : Prop :=
+  ∀ (P P2 : Prog) (f g : Nat) (caps : List Val) (B : BuiltinSem) (a : Val) (fuel : Nat) (r : Res),
+    injectCaptures P f caps = some (P2, g) → WfVals P caps →
+    run P2 B fuel ⟨[a], caps, [⟨f, 0, caps.length, 0⟩], false⟩ = some r →
+    (∀ v, r = .done v → ∃ fuel', run P2 B fuel' (St.start g a) = some (.done v)) ∧
+    (∀ e, r = .err e → ∃ fuel', run P2 B fuel' (St.start g a) = some (.err e))
+
+/-- **`injectCaptures_prelude_partial`.** For captures that contain no closure with captures of their
+    own (integers, binaries, tuples, builtins, capture-free functions — `Flat`): the injected function
+    `g` consists of a prelude followed by exactly the body of `f`, and running the prelude in the frame
+    a call of `g` creates (no captures, `pc = 0`) reaches the first instruction of the body with the
+    argument still on the stack and **the closure's captures, in order, as the frame's first locals** —
+    the configuration `Call` creates for the closure `fn f caps` itself. (Storing them in another order
+    — e.g. reversed — falsifies this theorem.) -/
+theorem injectCaptures_prelude_partial {P P2 : Prog} {f g : Nat} {caps : List Val}
+    (h : injectCaptures P f caps = some (P2, g)) (hw : WfVals P caps) (hfl : FlatList caps) :
+    P.Le P2 ∧ ∃ (F : Fn) (prelude : List Instr),
+      P2.fns[f]? = some F ∧
+      P2.fns[g]? = some { instrs := prelude ++ F.instrs, captures := 0, typeId := F.typeId } ∧
+      ∀ (Q : Prog), P2.Le Q → ∀ (B : BuiltinSem) (a : Val) (S L : List Val) (base : Nat) (rest : List Frame)
+        (pers : Bool),
+        Steps Q B ⟨a :: S, L, ⟨g, base, 0, 0⟩ :: rest, pers⟩
+                  ⟨a :: S, L ++ caps, ⟨g, base, 0, prelude.length⟩ :: rest, pers⟩ := by
+  unfold injectCaptures at h
+  split at h
+  · cases h
+  · rename_i P1 prelude hst
+    split at h
+    · cases h
+    · rename_i F hF
+      obtain ⟨hle1, hstores⟩ := v2iBStores_stores caps P P1 prelude hst hw hfl
+      have hle2 := registerFn_le P1 { instrs := prelude ++ F.instrs, captures := 0, typeId := F.typeId }
+      have hget := registerFn_get P1 { instrs := prelude ++ F.instrs, captures := 0, typeId := F.typeId }
+      simp only [Option.some.injEq] at h
+      rw [h] at hle2 hget
+      simp only at hle2 hget
+      refine ⟨hle1.trans hle2, F, prelude, hle2.fns _ _ hF, hget, ?_⟩
+      intro Q hQ B a S L base rest pers
+      have hcode : CodeAt Q g 0 prelude := by
+        intro k i hk
+        refine ⟨_, hQ.fns _ _ hget, ?_⟩
+        have hlt : k < prelude.length := by
+          rcases Nat.lt_or_ge k prelude.length with h | h
+          · exact h
+          · rw [List.getElem?_eq_none h] at hk; cases hk
+        simp only [Nat.zero_add]
+        rw [List.getElem?_append_left hlt]; exact hk
+      have := hstores Q (hle2.trans hQ) B (a :: S) L g base 0 0 rest pers hcode
+      simpa using this
+
+/-- Non-vacuity: a closure capturing an integer and a tuple, injected into a small program. -/
+example : ∃ P2 g, injectCaptures exP 2 [.int 5, .tuple 2 [.int 6]] = some (P2, g) ∧
+    (P2.fns[g]?).map (·.instrs) = some [.const 2, .store, .const 3, .tuple 2, .store, .tuple 2] := by
+  refine ⟨_, _, rfl, ?_⟩
+  decide
 
 end C10
